@@ -129,6 +129,14 @@ def run(tier):
         ops = []
         for _ in range(n):
             chars = [rng.choice(b" abcdefghijklmnopqrstuvwxyz,;:.!?'-0123456789#^_\"=+<>/") for _ in range(rng.randint(1, 20))]
+            if rng.random() < 0.5:
+                # words: short groups between single blanks, lower cells (digits and punctuation of the ASCII braille
+                # code) standing alone - the shapes whole-word, lowword and punctuation rules of the backward tables test
+                chars = []
+                for _w in range(rng.randint(1, 6)):
+                    chars += [rng.choice(b"abcdefghijklmnopqrstuvwxyz0123456789,;:.!?'-\"") if rng.random() < 0.6 else rng.choice(b"0123456789,;:.!?'-\"")
+                              for _ in range(rng.choice([1, 1, 1, 2, 3, 5]))] + [0x20]
+                chars = chars[:-1] if rng.random() < 0.7 else chars
             ops.append("C2D %s 0 %s" % (corpus.tpath(t), common.wide(chars)))
             cells = corpus.rand_braille(rng, 20, dots_io=True)
             if rng.random() < 0.35:
